@@ -36,8 +36,10 @@ def main():
     try:
         return mod.run(chk, tier)
     except AnalysisBroken as e:
-        print("ANALYSIS-BROKEN property=%s: %s" % (a.prop, e))
-        return EXIT_BROKEN
+        # an engine could not run; whatever was already decided is still reported (violations win over brokenness)
+        chk.broke(str(e))
+        return chk.finish(explanation="aborted: an analysis step could not run (%s); rules evaluated before it are listed" % str(e)[:300],
+                          rule_text="partial run")
     except Exception:
         traceback.print_exc()
         print("ANALYSIS-BROKEN property=%s: internal error" % a.prop)
